@@ -398,9 +398,9 @@ pub fn run_program(p: &Program) -> Result<Option<Built>, String> {
         Ok(())
     });
     if let Err(e) = res {
+        // the metadata may still be compared with the model; only the read-back is skipped
         errors.push(e);
         labels.push("publish-refused".into());
-        return Ok(Some(Built { work, root_path, metadata_dir, targets_dir, input_dir, model: Model::default(), labels, editor_errors: errors }));
     }
     Ok(Some(Built { work, root_path, metadata_dir, targets_dir, input_dir, model, labels, editor_errors: errors }))
 }
